@@ -371,69 +371,97 @@ func solveFlat(obls []*Obligation, cfg solveCfg) {
 		}
 		jobs = append(jobs, j)
 	}
-	var wg sync.WaitGroup
-	ch := make(chan job)
-	for w := 0; w < cfg.workers; w++ {
-		wg.Add(1)
-		go func() {
-			defer wg.Done()
-			for j := range ch {
-				o := j.o
-				var r solveOut
-				done := false
-				if j.skFile != "" {
-					r = solveQuery(j.skFile, cfg.fastS, 5, false)
-					if r.status == "unsat" {
-						r.solver += "+skeleton"
-						done = true
-					}
-				}
-				if !done && j.qfFile != "" {
-					t0 := r.secs
-					il := cfg.fullS / 3
-					if il < 20 {
-						il = 20
-					}
-					r = solveQuery(j.qfFile, cfg.fastS, il, false)
-					r.secs += t0
-					if r.status == "unsat" {
-						r.solver += "+inst"
-						done = true
-					}
-				}
-				if !done {
-					t1 := r.secs
-					lim := cfg.fullS
-					if o.Cover && lim > 20 {
-						// a vacuity cover only matters when it is refuted (unsat), which solvers report fast
-						lim = 20
-					}
-					r = solveQuery(j.file, cfg.fastS, lim, cfg.confirm && !o.Cover)
-					r.secs += t1
-				}
-				o.Solver, o.Time, o.Raw = r.solver, r.secs, r.raw
-				switch {
-				case o.Cover && r.status == "sat":
-					o.Status = "proved"
-				case o.Cover && r.status == "unsat":
-					o.Status = "refuted" // vacuous
-				case !o.Cover && r.status == "unsat":
-					o.Status = "proved"
-				case !o.Cover && r.status == "sat":
-					o.Status = "refuted"
-					o.Model = parseModel(r.raw, nil)
-				default:
-					o.Status = "unknown"
-				}
-				o.Note = j.file
+	process := func(j job, instLimit int) {
+		o := j.o
+		var r solveOut
+		done := false
+		if j.skFile != "" {
+			r = solveQuery(j.skFile, cfg.fastS, 5, false)
+			if r.status == "unsat" {
+				r.solver += "+skeleton"
+				done = true
 			}
-		}()
+		}
+		if !done && j.qfFile != "" {
+			t0 := r.secs
+			r = solveQuery(j.qfFile, cfg.fastS, instLimit, false)
+			r.secs += t0
+			if r.status == "unsat" {
+				r.solver += "+inst"
+				done = true
+			}
+		}
+		if !done {
+			t1 := r.secs
+			lim := cfg.fullS
+			if o.Cover && lim > 20 {
+				// a vacuity cover only matters when it is refuted (unsat), which solvers report fast
+				lim = 20
+			}
+			r = solveQuery(j.file, cfg.fastS, lim, cfg.confirm && !o.Cover)
+			r.secs += t1
+		}
+		o.Solver, o.Time, o.Raw = r.solver, r.secs, r.raw
+		switch {
+		case o.Cover && r.status == "sat":
+			o.Status = "proved"
+		case o.Cover && r.status == "unsat":
+			o.Status = "refuted" // vacuous
+		case !o.Cover && r.status == "unsat":
+			o.Status = "proved"
+		case !o.Cover && r.status == "sat":
+			o.Status = "refuted"
+			o.Model = parseModel(r.raw, nil)
+		default:
+			o.Status = "unknown"
+		}
+		o.Note = j.file
 	}
+	il := cfg.fullS / 3
+	if il < 20 {
+		il = 20
+	}
+	runPool := func(js []job, workers, instLimit int) {
+		var wg sync.WaitGroup
+		ch := make(chan job)
+		for w := 0; w < workers; w++ {
+			wg.Add(1)
+			go func() {
+				defer wg.Done()
+				for j := range ch {
+					process(j, instLimit)
+				}
+			}()
+		}
+		for _, j := range js {
+			ch <- j
+		}
+		close(ch)
+		wg.Wait()
+	}
+	runPool(jobs, cfg.workers, il)
+	// A few proof obligations left without an answer are tried once more with the machine to themselves:
+	// with all workers racing three solvers each, a condition that needs a third of the limit unloaded
+	// can run out of time for no semantic reason. Refutations and proofs are never retried.
+	var again []job
 	for _, j := range jobs {
-		ch <- j
+		if !j.o.Cover && j.o.Status == "unknown" {
+			again = append(again, j)
+		}
 	}
-	close(ch)
-	wg.Wait()
+	if n := len(again); n > 0 && n <= 4 {
+		before := map[*Obligation]float64{}
+		for _, j := range again {
+			before[j.o] = j.o.Time
+		}
+		runPool(again, 2, cfg.fullS)
+		for _, j := range again {
+			j.o.Time += before[j.o]
+			if j.o.Status != "unknown" {
+				j.o.Solver += " (retried unloaded)"
+			}
+		}
+	}
 }
 
 // explain re-solves a refuted obligation asking for the truth value of every
